@@ -72,6 +72,65 @@ def tree_variant():
     return "".join("1" if x else "0" for x in (v_test, v_bytes, v_multi))
 
 
+def _strip_cxx_comments(txt):
+    txt = re.sub(r"/\*.*?\*/", lambda m: re.sub(r"[^\n]", " ", m.group(0)), txt, flags=re.S)
+    return re.sub(r"//[^\n]*", "", txt)
+
+
+def counter_sites():
+    """Premise of the counter clause of race_free_all_schedules (T tie): the model has ONE way of changing
+    bytesAllocated, a step that is atomic in the fixed variant.  That describes the code only if every write to
+    modeDevice_t::bytesAllocated / maxBytesAllocated anywhere under src/ and include/ is inside
+    modeDevice_t::addBytesAllocated, and there between mutex.lock() and mutex.unlock().  Returns
+    (number of mentions inspected, list of offending 'file:line: text')."""
+    bad, seen = [], 0
+    roots = [os.path.join(C.REPO, "src"), os.path.join(C.REPO, "include")]
+    for root in roots:
+        for d, _, files in os.walk(root):
+            for f in sorted(files):
+                if not f.endswith((".cpp", ".hpp", ".tpp", ".h", ".c", ".mm")):
+                    continue
+                path = os.path.join(d, f)
+                rel = os.path.relpath(path, C.REPO)
+                try:
+                    raw = open(path, errors="replace").read()
+                except OSError:
+                    continue
+                if "ytesAllocated" not in raw:
+                    continue
+                txt = _strip_cxx_comments(raw)
+                # the one function that may write
+                lo = hi = lock = unlock = -1
+                m = re.search(r"void\s+modeDevice_t::addBytesAllocated\s*\([^)]*\)\s*\{", txt)
+                if m:
+                    lo = m.end()
+                    depth, i = 1, lo
+                    while i < len(txt) and depth:
+                        depth += (txt[i] == "{") - (txt[i] == "}")
+                        i += 1
+                    hi = i
+                    body = txt[lo:hi]
+                    a, b = body.find("mutex.lock()"), body.rfind("mutex.unlock()")
+                    lock, unlock = (lo + a if a >= 0 else -1), (lo + b if b >= 0 else -1)
+                for mm in re.finditer(r"\b(?:maxBytesAllocated|bytesAllocated)\b", txt):
+                    seen += 1
+                    pos, end = mm.start(), mm.end()
+                    line = txt.count("\n", 0, pos) + 1
+                    text = raw.splitlines()[line - 1].strip()
+                    after = txt[end:end + 12].lstrip()
+                    before = txt[max(0, pos - 12):pos]
+                    is_write = bool(re.match(r"(=(?!=)|\+=|-=|\*=|/=|\|=|&=|\^=|<<=|>>=|\+\+|--)", after)) or \
+                        bool(re.search(r"(\+\+|--)\s*(\w+(->|\.))?$", before))
+                    is_escape = bool(re.search(r"&\s*(\w+(->|\.))?$", before))       # address / reference taken
+                    inside = lo <= pos < hi
+                    if inside:
+                        if lock < 0 or unlock < 0 or not (lock < pos < unlock):
+                            bad.append("%s:%d: counter touched inside addBytesAllocated but outside its lock..unlock: %s" % (rel, line, text))
+                    elif is_write or is_escape:
+                        bad.append("%s:%d: counter written outside modeDevice_t::addBytesAllocated: %s" % (rel, line, text))
+    return seen, bad
+
+
 # --------------------------------------------------------------------------- generators
 
 def op_tokens(rng, n, nops, nv=4):
@@ -144,7 +203,10 @@ def directed(hook):
         "Z8.40.3 " + " ".join("t%d:M0:%d t%d:M1:%d t%d:D0 t%d:M2:8" % (t, 8 * (t + 1), t, 16, t, t) for t in range(8)),
         "Z16.10.4 t0:M0:64 " + " ".join("t0:S0:%d:0" % k for k in range(1, 16)) + " " + " ".join("t%d:L0:1 t%d:C1:2" % (k, k) for k in range(1, 16)),
     ]
-    m = ["M1 c1", "M1 c3"]
+    m = ["M1 c1", "M1 c3",
+         # memory pool (outside the Coq model): thread 0 keeps resizing a pool that holds a live reservation while
+         # the others malloc/free on the same device; memoryAllocated() must be 0 at the end, no race report
+         "P4.300.1", "P2.300.2", "P8.150.3"]
     x = []
     if hook:
         x = [
@@ -162,7 +224,7 @@ def directed(hook):
 
 def nontrivial(case):
     t = case.split()
-    if case.startswith("M"):
+    if case.startswith("M") or case.startswith("P"):
         return True
     shares = any(re.match(r"^t\d+:[SL]", x) for x in t)
     drops = any(re.match(r"^t\d+:D", x) for x in t)
@@ -242,6 +304,15 @@ def run(run, tier, seed, replay_case=None):
                               "(1st digit: remove-and-test under the ring lock = fixes/C30-1.patch; 2nd: allocation counter "
                               "under a lock = fixes/C30-2.patch; 3rd: removeRef(entry,false) leaves the lock alone = "
                               "fixes/C30-3.patch)" % variant)
+    # T tie: every write of the allocation counter is the locked one the model speaks about
+    n_sites, bad_sites = counter_sites()
+    if variant[1] == "1" and bad_sites:
+        proof_failures.append("premise of the counter clause of race_free_all_schedules does not hold of the source tree: "
+                              + " || ".join(bad_sites[:6]))
+    if variant[1] == "1" and n_sites == 0:
+        proof_failures.append("no mention of bytesAllocated found under src/: the counter-site scan no longer sees the code")
+    run.coverage["obligations"] += 1
+    run.coverage["discharged"] += 0 if (bad_sites or n_sites == 0) and variant[1] == "1" else 1
     import vlib.common as VC
     orig_known = VC.load_known_findings
     VC.load_known_findings = lambda prop: orig_known(prop) + (extra_known() if prop == PROP else [])
@@ -262,10 +333,14 @@ def run(run, tier, seed, replay_case=None):
                    "slice/delete programs, a random schedule over the library's schedule points (replayed deterministically "
                    "through hooks/C30-1.patch; counters compared with the model after every schedule entry); Z: 2-16 free-running "
                    "threads under ThreadSanitizer, all handles deleted concurrently after a barrier, repeated; M: multiRing "
-                   "add/remove on one thread; non-trivial = an object is shared between threads (hand-over or slice), handles "
+                   "add/remove on one thread; P: one thread resizing a memory pool with a live reservation while the others "
+                   "malloc/free (pools are outside the model: observation only); T: source scan that every write of "
+                   "bytesAllocated/maxBytesAllocated is inside the locked addBytesAllocated; non-trivial = an object is shared between threads (hand-over or slice), handles "
                    "are deleted, and (X) the explicit schedule interleaves at least two threads; distinct = distinct case text")
     cov["samples"] = [dict(case=cases[i], impl=I[i], model=R[i], spec=S[i]) for i in sorted(set((0, len(cases) // 2, len(cases) - 1)))]
-    cov["kinds"] = {k: sum(1 for c in cases if c.startswith(k)) for k in "XZM"}
+    cov["kinds"] = {k: sum(1 for c in cases if c.startswith(k)) for k in "XZMP"}
+    cov["counter_mentions_inspected"] = n_sites
+    cov["counter_sites_outside_lock"] = len(bad_sites)
     cov["tree_variant"] = variant
     cov["hook_present"] = bool(hook)
     cov["replay_available"] = bool(hook)
